@@ -24,6 +24,7 @@ type vhCfg struct {
 	async    bool
 	lower    bool
 	ext      string
+	noext    bool // the empty extension: files are named <uuid>[.gz]
 }
 
 var vhCfgs = []vhCfg{
@@ -41,6 +42,9 @@ func vhSchema(c vhCfg) Schema {
 	s.Compress = c.compress
 	if c.ext != "" {
 		s.Extension = c.ext
+	}
+	if c.noext {
+		s.Extension = ""
 	}
 	if c.async {
 		s.Asynchrone(1000, time.Hour)
